@@ -62,7 +62,8 @@ FORBIDDEN.update({chr(i): 'C0-control' for i in range(1, 32)})
 
 
 def plan(tier):
-    return {'shards': 16, 'budget_s': 45 if tier == 'quick' else 700}
+    # budget_s is CPU seconds per shard; core caps the shard's wall time at 2.5x (quick 60 s, thorough 850 s)
+    return {'shards': 16, 'budget_s': 24 if tier == 'quick' else 340}
 
 
 # =============================================================================== names
@@ -208,7 +209,10 @@ def gen_cases(rng, tier, shard, nshards):
         for label, size in bigs:
             sub = rng.getrandbits(48)            # drawn on every shard: keeps rng streams aligned
             if idx % nshards == shard:
-                yield pub_case(random.Random(sub), size, rep)
+                c = pub_case(random.Random(sub), size, rep)
+                if rep == 0:        # one instance of every boundary size is guaranteed to reach the round-trip oracle
+                    c.update(content='rand', name_kind='plain', name_hex=('boundary %s.bin' % label).encode().hex())
+                yield c
             idx += 1
     if shard == 1 % nshards:
         # deliberately colliding chunks: two identical plaintext chunks under one repeated IV (logged class)
@@ -223,7 +227,7 @@ def gen_cases(rng, tier, shard, nshards):
         yield pub_case(r, size, j)
         if j % 3 == 0:
             yield {'fam': 'tamper', 'seed': rng.getrandbits(48), 'nblobs': [1, 2, 3, 3, 5, 8][(j // 3) % 6],
-                   'style': ['sorted', 'old'][(j // 3) % 2]}
+                   'style': ['sorted', 'old'][(j // 3 + j // 18 + shard) % 2]}
         if j % 6 == 0:
             yield {'fam': 'names', 'seed': rng.getrandbits(48), 'count': 400 if quick else 2000}
 
@@ -298,7 +302,9 @@ def shard_setup(rec, tier):
 
 
 def shard_finish(rec, tier):
-    rec.log('shard_wall_s.%d-%d' % (int(rec.budget_s - rec.time_left()) // 60 * 60, int(rec.budget_s - rec.time_left()) // 60 * 60 + 60))
+    import time
+    w = int(time.monotonic() - rec.t0) // 60 * 60
+    rec.log('shard_wall_s.%d-%d' % (w, w + 60))
 
 
 def execute(rec, case):
